@@ -498,10 +498,11 @@ func loadsCmd(args []string) error {
 			src := obs.NewSource(j.it.Data, j.cut, failOf(j.fault), j.s).WithShape(j.shape)
 			// the caller reads the returned stream in pieces of its own choosing
 			src.DrainBuf = []int{0, 1, 7, 512, 4096, 4097}[i%6]
+			src.DrainCopyAfter = []int{-1, -1, 0, 12, -1, 5000, 1}[i%7] // ... or reads some and io.Copy's the rest
 			o := obs.Run(j.loader, src, true, false)
 			sink.put(map[string]interface{}{
 				"item": j.it.Name, "loader": j.loader, "n": len(j.it.Data), "cut": j.cut, "fault": j.fault,
-				"sched": j.s.Name, "shape": j.shape, "drain_buf": src.DrainBuf, "ok": o.OK, "panic": o.Panic != "", "stream_nil": o.StreamNil,
+				"sched": j.s.Name, "shape": j.shape, "drain_buf": src.DrainBuf, "drain_copy_after": src.DrainCopyAfter, "ok": o.OK, "panic": o.Panic != "", "stream_nil": o.StreamNil,
 				"pulled": o.Pulled, "replay_len": o.ReplayLen, "prefix": o.Prefix, "final": o.FinalErr,
 			})
 		})
